@@ -100,13 +100,34 @@ type concMeta struct {
 	hdr      *block.MetaBlock
 }
 
+// a block of the recorder
+type concBlock struct {
+	ts           []*mbTemplate
+	hh           []byte
+	nonce, round uint64
+	epoch        uint32
+	hdr          data.HeaderHandler
+	body         *block.Body
+	what         string
+	epochBefore  bool // the epoch changes to .epoch right before this block
+	stagger      int
+}
+
 type concCall struct {
 	metas   []*concMeta
 	stagger int // microseconds to wait before the call (0 = none, 1 = yield)
 }
 
-func runConcCase(r *vk.Run, c *vk.Case) {
+// rerecord = false: only notifiers overlap (records are made while no notifier runs).
+// rerecord = true: one recorder goroutine (RecordBlock is called synchronously by the block processor, one block at a
+// time) commits competing blocks that contain miniblocks already on record (same epoch or after an epoch change) and
+// miniblocks not yet on record, while 1..3 notifier goroutines deliver the meta blocks that notarize them.
+func runConcCase(r *vk.Run, c *vk.Case, rerecord bool) {
 	rng := c.Rng
+	pfx := "concurrent: "
+	if rerecord {
+		pfx = "rerecord: "
+	}
 	selfs := []uint32{0, 1, meta}
 	self := selfs[rng.Intn(3)]
 	useReal := rng.Chance(1, 3)
@@ -140,7 +161,7 @@ func runConcCase(r *vk.Run, c *vk.Case) {
 		}
 		repo = hr
 	}
-	r.Count("concurrent cases storers="+storerKind, 1)
+	r.Count(pfx+"cases storers="+storerKind, 1)
 
 	// ---- templates: disjoint transactions, every template from or to the self shard
 	var tpls []*mbTemplate
@@ -196,7 +217,7 @@ func runConcCase(r *vk.Run, c *vk.Case) {
 			}
 			tp = append(tp, fmt.Sprintf("mb%d %s->%s type=%s hash=%x txs=%v", t.id, shardName(t.src), shardName(t.dst), t.typ.String(), t.hash[:6], txs))
 		}
-		m := map[string]interface{}{"phase": "concurrent notifiers", "self_shard": shardName(self), "storers": storerKind, "templates": tp, "ops": ops}
+		m := map[string]interface{}{"phase": map[bool]string{false: "concurrent notifiers", true: "recorder racing notifiers"}[rerecord], "self_shard": shardName(self), "storers": storerKind, "templates": tp, "ops": ops}
 		for k, v := range extra {
 			m[k] = v
 		}
@@ -217,40 +238,57 @@ func runConcCase(r *vk.Run, c *vk.Case) {
 	nRecords := make([]int, len(tpls))
 	curEpoch := uint32(0)
 	height, round, hdrSeq := uint64(10), uint64(100), 0
-	recordBlock := func(ts []*mbTemplate) {
+	// a block is planned (all random choices), executed (no random choice, usable from the recorder goroutine)
+	// and noted in the model
+	mkBlock := func(ts []*mbTemplate) *concBlock {
 		hdrSeq++
 		if hdrSeq == 1 || rng.Chance(1, 2) {
 			height++
 		}
 		round += uint64(rng.Range(1, 3))
-		hh := []byte(fmt.Sprintf("chdr%d/e%d", hdrSeq, curEpoch))
-		var hdr data.HeaderHandler
+		b := &concBlock{ts: ts, hh: []byte(fmt.Sprintf("chdr%d/e%d", hdrSeq, curEpoch)), nonce: height, round: round, epoch: curEpoch}
 		if self == meta {
-			hdr = &block.MetaBlock{Nonce: height, Round: round, Epoch: curEpoch}
+			b.hdr = &block.MetaBlock{Nonce: height, Round: round, Epoch: curEpoch}
 		} else {
-			hdr = &block.Header{Nonce: height, Round: round, Epoch: curEpoch, ShardID: self}
+			b.hdr = &block.Header{Nonce: height, Round: round, Epoch: curEpoch, ShardID: self}
 		}
-		body := &block.Body{}
+		b.body = &block.Body{}
 		var names []string
 		for _, t := range ts {
 			cp := &block.MiniBlock{SenderShardID: t.src, ReceiverShardID: t.dst, Type: t.typ}
 			for _, x := range t.txs {
 				cp.TxHashes = append(cp.TxHashes, append([]byte{}, x...))
 			}
-			body.MiniBlocks = append(body.MiniBlocks, cp)
+			b.body.MiniBlocks = append(b.body.MiniBlocks, cp)
 			names = append(names, fmt.Sprintf("mb%d", t.id))
 		}
-		err := repo.RecordBlock(append([]byte{}, hh...), hdr, body, nil, nil)
-		what := fmt.Sprintf("RecordBlock(%s nonce %d round %d epoch %d: %s)", hh, height, round, curEpoch, strings.Join(names, ","))
-		logf("%s", what)
+		b.what = fmt.Sprintf("RecordBlock(%s nonce %d round %d epoch %d: %s)", b.hh, height, round, curEpoch, strings.Join(names, ","))
+		return b
+	}
+	execBlock := func(b *concBlock) error {
+		return repo.RecordBlock(append([]byte{}, b.hh...), b.hdr, b.body, nil, nil)
+	}
+	noteBlock := func(b *concBlock, err error) {
 		r.Count("RecordBlock", 1)
 		if err != nil {
-			violation("record-error", what+": "+err.Error(), detail(nil))
+			violation("record-error", b.what+": "+err.Error(), detail(nil))
 		}
-		for _, t := range ts {
-			lastRec[t.id] = &record{headerHash: hh, nonce: height, round: round, epoch: curEpoch}
+		for _, t := range b.ts {
+			lastRec[t.id] = &record{headerHash: b.hh, nonce: b.nonce, round: b.round, epoch: b.epoch}
 			nRecords[t.id]++
 		}
+	}
+	epochAction := func(e uint32) {
+		if ea != nil {
+			ea.handler.EpochStartAction(&block.Header{Epoch: e})
+			ea.ps.SetEpochForPutOperation(e)
+			ea.cur = e
+		}
+	}
+	recordBlock := func(ts []*mbTemplate) {
+		b := mkBlock(ts)
+		logf("%s", b.what)
+		noteBlock(b, execBlock(b))
 	}
 	recordAll := func(ts []*mbTemplate) {
 		for i := 0; i < len(ts); {
@@ -263,11 +301,7 @@ func runConcCase(r *vk.Run, c *vk.Case) {
 			if rng.Chance(1, 4) && curEpoch < 2 {
 				curEpoch++
 				logf("epoch change: current epoch %d", curEpoch)
-				if ea != nil {
-					ea.handler.EpochStartAction(&block.Header{Epoch: curEpoch})
-					ea.ps.SetEpochForPutOperation(curEpoch)
-					ea.cur = curEpoch
-				}
+				epochAction(curEpoch)
 			}
 		}
 	}
@@ -296,6 +330,9 @@ func runConcCase(r *vk.Run, c *vk.Case) {
 
 	// ---- plan of the notifiers
 	G := rng.Range(2, 4)
+	if rerecord {
+		G = rng.Range(1, 3)
+	}
 	calls := make([][]*concCall, G)
 	metaNonce := uint64(1)
 	newMeta := func() *concMeta {
@@ -329,7 +366,7 @@ func runConcCase(r *vk.Run, c *vk.Case) {
 		if isCross(t) {
 			g1 := rng.Intn(G)
 			g2 := g1
-			if rng.Chance(3, 4) {
+			if G > 1 && rng.Chance(3, 4) {
 				g2 = (g1 + 1 + rng.Intn(G-1)) % G
 			}
 			if rng.Chance(9, 10) {
@@ -372,12 +409,12 @@ func runConcCase(r *vk.Run, c *vk.Case) {
 	}
 	// a meta block may reach the repository through two notifiers (the same header and hash)
 	for g := range calls {
-		if rng.Chance(1, 4) {
+		if G > 1 && rng.Chance(1, 4) {
 			o := (g + 1 + rng.Intn(G-1)) % G
 			src := calls[o][rng.Intn(len(calls[o]))]
 			cl := calls[g][rng.Intn(len(calls[g]))]
 			cl.metas = append(cl.metas, src.metas[rng.Intn(len(src.metas))])
-			r.Count("concurrent: meta block delivered by two notifiers", 1)
+			r.Count(pfx+"meta block delivered by two notifiers", 1)
 		}
 	}
 	for g := range calls {
@@ -394,12 +431,105 @@ func runConcCase(r *vk.Run, c *vk.Case) {
 		}
 	}
 
+	// ---- plan of the recorder: 2..5 blocks, each with 1..3 miniblocks: already on record (a competing block commits
+	// them again under another header hash), not yet on record, or recorded by an earlier block of this plan
+	reRecConc := make([]bool, len(tpls))    // recorded during the concurrent phase while already on record
+	firstRecConc := make([]bool, len(tpls)) // recorded for the first time during the concurrent phase
+	var plan []*concBlock
+	raced := 0 // miniblocks recorded again during the concurrent phase that have a listing
+	if rerecord {
+		onRecord := make([]bool, len(tpls))
+		for _, t := range early {
+			onRecord[t.id] = true
+		}
+		for nB := rng.Range(2, 5); nB > 0; nB-- {
+			epochBefore := false
+			if rng.Chance(1, 3) && curEpoch < 2 {
+				curEpoch++
+				epochBefore = true
+			}
+			used := map[int]bool{}
+			var ts []*mbTemplate
+			for k := rng.Range(1, 3); k > 0; k-- {
+				t := tpls[rng.Intn(len(tpls))]
+				if rng.Chance(2, 3) { // prefer one that is on record
+					for tries := 0; tries < 4 && !onRecord[t.id]; tries++ {
+						t = tpls[rng.Intn(len(tpls))]
+					}
+				}
+				if used[t.id] {
+					continue
+				}
+				used[t.id] = true
+				ts = append(ts, t)
+			}
+			b := mkBlock(ts)
+			b.epochBefore = epochBefore
+			switch x := rng.Intn(10); {
+			case x < 4:
+			case x < 7:
+				b.stagger = 1
+			default:
+				b.stagger = rng.Range(20, 300)
+			}
+			for _, t := range ts {
+				if onRecord[t.id] {
+					reRecConc[t.id] = true
+				} else {
+					firstRecConc[t.id] = true
+				}
+				onRecord[t.id] = true
+			}
+			plan = append(plan, b)
+			ep := ""
+			if epochBefore {
+				ep = fmt.Sprintf("epoch change to %d, then ", curEpoch)
+			}
+			logf("recorder block %d (stagger %d): %s%s", len(plan)-1, b.stagger, ep, b.what)
+		}
+		for _, t := range tpls {
+			if reRecConc[t.id] && (expSource[t.id] != nil || expDest[t.id] != nil) {
+				raced++
+			}
+		}
+		// the miniblocks left for the sequential record after the concurrent phase
+		var rest []*mbTemplate
+		for _, t := range late {
+			if !onRecord[t.id] {
+				rest = append(rest, t)
+			}
+		}
+		late = rest
+	}
+
 	// ---- concurrent phase
 	atomic.StoreInt32(&ds.on, 1)
 	start := make(chan struct{})
 	var wg sync.WaitGroup
 	var maxInFlight int32
 	nCalls := 0
+	planErr := make([]error, len(plan))
+	if len(plan) > 0 {
+		wg.Add(1)
+		go func() {
+			defer wg.Done()
+			<-start
+			for i, b := range plan {
+				switch {
+				case b.stagger == 1:
+					runtime.Gosched()
+				case b.stagger > 1:
+					time.Sleep(time.Duration(b.stagger) * time.Microsecond)
+				}
+				if b.epochBefore {
+					epochAction(b.epoch)
+				}
+				atomic.AddInt32(&inFlight, 1)
+				planErr[i] = execBlock(b)
+				atomic.AddInt32(&inFlight, -1)
+			}
+		}()
+	}
 	for g := range calls {
 		nCalls += len(calls[g])
 		wg.Add(1)
@@ -435,17 +565,36 @@ func runConcCase(r *vk.Run, c *vk.Case) {
 	wg.Wait()
 	atomic.StoreInt32(&ds.on, 0)
 	logf("all notifiers returned")
-	r.Count("concurrent: OnNotarizedBlocks calls", nCalls)
-	r.Count("concurrent: notifier goroutines", G)
-	r.Count("concurrent: cross-shard miniblocks with source and destination listing on different notifiers", splitPairs)
-	r.Count("concurrent: metadata storer operations while 2+ OnNotarizedBlocks calls were in flight", int(atomic.LoadInt64(&ds.overlap)))
-	r.Count("concurrent: injected sleeps", int(atomic.LoadInt64(&ds.pauses)))
-	r.Max("concurrent: max OnNotarizedBlocks calls in flight", int64(maxInFlight))
+	for i, b := range plan {
+		noteBlock(b, planErr[i])
+	}
+	if rerecord {
+		logf("the recorder returned")
+		r.Count(pfx+"RecordBlock calls racing notifiers", len(plan))
+		r.Count(pfx+"notified miniblocks recorded again while notifiers ran", raced)
+		nFirst := 0
+		for _, f := range firstRecConc {
+			if f {
+				nFirst++
+			}
+		}
+		r.Count(pfx+"miniblocks recorded for the first time while notifiers ran", nFirst)
+	}
+	r.Count(pfx+"OnNotarizedBlocks calls", nCalls)
+	r.Count(pfx+"notifier goroutines", G)
+	r.Count(pfx+"cross-shard miniblocks with source and destination listing on different notifiers", splitPairs)
+	r.Count(pfx+"metadata storer operations while 2+ calls (OnNotarizedBlocks, RecordBlock) were in flight", int(atomic.LoadInt64(&ds.overlap)))
+	r.Count(pfx+"injected sleeps", int(atomic.LoadInt64(&ds.pauses)))
+	r.Max(pfx+"max OnNotarizedBlocks calls in flight", int64(maxInFlight))
 
 	// ---- quiescence: one further (empty) call, then the oracle
 	isLate := make([]bool, len(tpls))
 	for _, t := range late {
 		isLate[t.id] = true
+	}
+	quiet := "after the concurrent notifiers and one empty call"
+	if rerecord {
+		quiet = "after the recorder and the notifiers returned and one empty call"
 	}
 	check := func(after string) {
 		for _, t := range tpls {
@@ -455,9 +604,18 @@ func runConcCase(r *vk.Run, c *vk.Case) {
 			}
 			// witness class: the miniblock was on record while the notifiers ran, or was recorded after they returned
 			class := "concurrent-notifiers"
-			if isLate[t.id] {
+			switch {
+			case reRecConc[t.id]:
+				class = "concurrent-rerecord" // a competing block recorded it again while notifiers ran
+			case firstRecConc[t.id]:
+				class = "concurrent-first-record" // first record while notifiers ran
+			case isLate[t.id]:
 				class = "concurrent-notifiers+late-record"
 			}
+			if e, err := repo.GetEpochByHash(t.hash); err != nil || e != exp.epoch {
+				violation("epoch-by-hash class="+class, fmt.Sprintf("%s: GetEpochByHash(mb%d) = %d, %v; last recorded in epoch %d", after, t.id, e, err, exp.epoch), detail(nil))
+			}
+			r.Eval(1)
 			for _, x := range t.txs {
 				md, err := repo.GetMiniblockMetadataByTxHash(x)
 				r.Eval(1)
@@ -480,7 +638,7 @@ func runConcCase(r *vk.Run, c *vk.Case) {
 						return
 					}
 					if gotNonce == m.nonce && bytes.Equal(gotHash, m.hash) {
-						r.Count("concurrent: notarization coordinates confirmed", 1)
+						r.Count(pfx+"notarization coordinates confirmed", 1)
 						return
 					}
 					if gotNonce != 0 || len(gotHash) != 0 {
@@ -499,7 +657,7 @@ func runConcCase(r *vk.Run, c *vk.Case) {
 	}
 	repo.OnNotarizedBlocks(meta, []data.HeaderHandler{}, [][]byte{})
 	logf("OnNotarizedBlocks(empty)")
-	check("after the concurrent notifiers and one empty call")
+	check(quiet)
 	if len(late) > 0 {
 		recordAll(late)
 		repo.OnNotarizedBlocks(meta, []data.HeaderHandler{}, [][]byte{})
@@ -519,7 +677,29 @@ func runConcCase(r *vk.Run, c *vk.Case) {
 			nRe++
 		}
 	}
-	if splitPairs == 0 || maxInFlight < 2 {
+	if rerecord {
+		if raced == 0 {
+			r.Trivial()
+		} else {
+			selfKind := "shard"
+			if self == meta {
+				selfKind = "meta"
+			}
+			nEp := 0
+			for _, b := range plan {
+				if b.epochBefore {
+					nEp++
+				}
+			}
+			nFirst := 0
+			for _, f := range firstRecConc {
+				if f {
+					nFirst++
+				}
+			}
+			r.Shape(fmt.Sprintf("rerecord %s %s notifiers=%d calls=%d blocks=%d epochchanges=%d cross=%d both=%d raced=%d first=%d late=%d", selfKind, storerKind, G, nCalls, len(plan), nEp, nCross, nBoth, raced, nFirst, len(late)))
+		}
+	} else if splitPairs == 0 || maxInFlight < 2 {
 		r.Trivial()
 	} else {
 		selfKind := "shard"
